@@ -1,126 +1,66 @@
+// Harness c15 (governance accounting): drives the real block-executor step (chain.executeTx ->
+// executeGovernanceTx -> system.ExecuteSystemTx / name.ExecuteNameTx, and contract.Execute for plain
+// transfers) on a real StateDB (memorydb) with several accounts over block heights that straddle the
+// staking and voting delays; after every operation it prints the governance state of the real node
+// (staking records, total, votes, persisted rankings, vote totals, parameters, the live voting-power rank
+// and the one reloaded by the real loadVpr, names in the buffered and in the committed view, balances) in
+// the canonical form the Lean model driver (lean/Drv/C15.lean) prints, and evaluates the property's own
+// clauses on the real state as oracle.
+//
+// op lines: see lean/Drv/C15.lean.
 package main
 
 import (
+	"bytes"
 	"encoding/hex"
+	"encoding/json"
 	"fmt"
 	"math/big"
-	"os"
+	"path/filepath"
+	"sort"
+	"strings"
 
 	"github.com/aergoio/aergo-lib/db"
 	"github.com/aergoio/aergo/v2/chain"
 	"github.com/aergoio/aergo/v2/consensus"
-	"github.com/aergoio/aergo/v2/internal/common"
+	"github.com/aergoio/aergo/v2/contract/name"
 	"github.com/aergoio/aergo/v2/contract/system"
+	"github.com/aergoio/aergo/v2/fee"
+	"github.com/aergoio/aergo/v2/internal/common"
 	"github.com/aergoio/aergo/v2/internal/enc/base58"
 	"github.com/aergoio/aergo/v2/state"
 	"github.com/aergoio/aergo/v2/state/statedb"
 	"github.com/aergoio/aergo/v2/types"
+	"github.com/aergoio/aergo/v2/types/dbkey"
 	"github.com/aergoio/aergo/v2/zz_verif/vh"
 )
 
-var aergo = big.NewInt(1e18)
+const (
+	kTie     = "C15-less-tie-candidate-prefix"
+	kNot39   = "C15-votebp-candidate-not-39-bytes"
+	kMembers = "C15-vpr-members-stale-key"
+	kSysXfer = "C15-transfer-to-system-account"
+)
+
+var (
+	aergo   = new(big.Int).Exp(big.NewInt(10), big.NewInt(18), nil)
+	sysAddr = []byte(types.AergoSystem)
+	nmAddr  = []byte(types.AergoName)
+	bpKey   = []byte("voteBP")
+	daoIDs  = []string{"BPCOUNT", "STAKINGMIN", "GASPRICE", "NAMEPRICE"}
+	issues  = []string{"voteBP", "BPCOUNT", "STAKINGMIN", "GASPRICE", "NAMEPRICE"}
+)
 
 func coins(n int64) *big.Int { return new(big.Int).Mul(big.NewInt(n), aergo) }
 
-type world struct {
-	sdb   *state.ChainStateDB
-	bs    *state.BlockState
-	addrs [][]byte
+func hx(b []byte) string {
+	if len(b) == 0 {
+		return "-"
+	}
+	return hex.EncodeToString(b)
 }
 
-func newWorld(dir string) *world {
-	w := &world{}
-	w.sdb = state.NewChainStateDB()
-	if err := w.sdb.Init(string(db.MemoryImpl), dir, nil, false, nil); err != nil {
-		panic(err)
-	}
-	g := types.GetTestGenesis()
-	if err := w.sdb.SetGenesis(g, nil); err != nil {
-		panic(err)
-	}
-	r := vh.NewRng(7)
-	for i := 0; i < 6; i++ {
-		a := append([]byte{2 + byte(i&1)}, r.Bytes(32)...)
-		w.addrs = append(w.addrs, a)
-	}
-	w.bs = w.sdb.NewBlockState(w.sdb.GetRoot())
-	scs, _ := statedb.GetSystemAccountState(w.bs.StateDB)
-	system.InitSystemParams(scs, 3)
-	system.InitVotingPowerRank(scs)
-	for _, a := range w.addrs {
-		as, _ := state.GetAccountState(a, w.bs.StateDB)
-		as.AddBalance(coins(1000000))
-		as.PutState()
-	}
-	w.commit()
-	return w
-}
-
-func (w *world) commit() {
-	if err := w.bs.Update(); err != nil {
-		panic(err)
-	}
-	if err := w.bs.Commit(); err != nil {
-		panic(err)
-	}
-	if err := w.sdb.UpdateRoot(w.bs); err != nil {
-		panic(err)
-	}
-	w.bs = w.sdb.NewBlockState(w.sdb.GetRoot())
-}
-
-func (w *world) sys(who int, no uint64, amount *big.Int, payload string) error {
-	sender, _ := state.GetAccountState(w.addrs[who], w.bs.StateDB)
-	receiver, _ := state.GetAccountState([]byte(types.AergoSystem), w.bs.StateDB)
-	scs, err := statedb.OpenContractState(receiver.IDNoPadding(), receiver.State(), w.bs.StateDB)
-	if err != nil {
-		panic(err)
-	}
-	tx := &types.TxBody{Account: w.addrs[who], Recipient: []byte(types.AergoSystem), Amount: amount.Bytes(), Payload: []byte(payload), Type: types.TxType_GOVERNANCE}
-	bi := &types.BlockHeaderInfo{No: no, ForkVersion: 2}
-	var e error
-	out, p := vh.Guard(func() string {
-		_, e = system.ExecuteSystemTx(scs, tx, sender, receiver, bi)
-		return ""
-	})
-	if p {
-		return fmt.Errorf("%s", out)
-	}
-	if e != nil {
-		return e
-	}
-	statedb.StageContractState(scs, w.bs.StateDB)
-	sender.PutState()
-	receiver.PutState()
-	return nil
-}
-
-func cand(par byte, x byte) []byte {
-	b := []byte{0, 0x25, 8, 2, 0x12, 0x21, par}
-	for i := 0; i < 32; i++ {
-		b = append(b, x)
-	}
-	return b
-}
-
-func (w *world) dump(tag string) {
-	scs, _ := statedb.GetSystemAccountState(w.bs.StateDB)
-	mem := system.VerifC15VprMemory()
-	ld, _ := system.VerifC15VprLoad(scs)
-	eq, _ := system.VerifC15VprEquals(scs)
-	fmt.Println(tag, "MEM ", mem.String(true))
-	fmt.Println(tag, "LOAD", ld.String(true))
-	fmt.Println(tag, "equals:", eq)
-	vl, err := system.GetVoteResult(scs, []byte("voteBP"), 100)
-	if err == nil {
-		for _, v := range vl.Votes {
-			fmt.Println(tag, "  rank", hex.EncodeToString(v.Candidate), new(big.Int).SetBytes(v.Amount))
-		}
-	}
-	tot, _ := system.GetStakingTotal(scs)
-	sa, _ := state.GetAccountState([]byte(types.AergoSystem), w.bs.StateDB)
-	fmt.Println(tag, "total", tot, "sysbal", sa.Balance())
-}
+func joinC(xs []string) string { return strings.Join(xs, ",") }
 
 type stubCcc struct{}
 
@@ -128,78 +68,1749 @@ func (stubCcc) MakeConfChangeProposal(req *types.MembershipChange) (*consensus.C
 	return nil, consensus.ErrorMembershipChangeSkip
 }
 
-func (w *world) transferToSystem() {
+// ---------------------------------------------------------------- known-finding bookkeeping
+
+type findings struct {
+	run  *vh.Run
+	seen map[string]bool
+}
+
+// known reports a known-finding class once per run (with its first replay) and counts the rest, so that
+// the bounded failure list always has room for a different violation.
+func (f *findings) known(class, what string, replay interface{}) {
+	f.run.Count("known:" + class)
+	if f.seen[class] {
+		return
+	}
+	f.seen[class] = true
+	f.run.FailKnown(what, class, replay)
+}
+
+// ---------------------------------------------------------------- session
+
+type acct struct {
+	addr []byte
+	id   types.AccountID
+}
+
+type sess struct {
+	run   *vh.Run
+	fd    *findings
+	rng   *vh.Rng
+	sdb   *state.ChainStateDB
+	bs    *state.BlockState
+	fv    int32
+	cid   []byte
+	accts []*acct
+	cands [][]byte
+	names []string
+	h     uint64
+	ops   []string
+	dead  bool
+	label string
+
+	sysXfer bool // a plain transfer to aergo.system was executed in this session
+	not39   bool // a voteBP with a candidate length != 39 was executed
+}
+
+var dbSeq int
+
+func newSess(run *vh.Run, fd *findings, rng *vh.Rng, fv int32, label string) *sess {
+	s := &sess{run: run, fd: fd, rng: rng, fv: fv, h: 1, label: label}
+	dbSeq++
+	s.sdb = state.NewChainStateDB()
+	if err := s.sdb.Init(string(db.MemoryImpl), filepath.Join(run.Out, "db", fmt.Sprint(dbSeq)), nil, false, nil); err != nil {
+		panic(err)
+	}
 	g := types.GetTestGenesis()
-	cid, _ := g.ID.Bytes()
-	fv := int32(2)
-	bi := &types.BlockHeaderInfo{No: 500000, ForkVersion: fv, ChainId: types.MakeChainId(cid, fv)}
-	tx := &types.Tx{Body: &types.TxBody{Account: w.addrs[4], Recipient: []byte(types.AergoSystem), Amount: coins(7).Bytes(), Nonce: 1,
-		Type: types.TxType_TRANSFER, ChainIdHash: common.Hasher(types.MakeChainId(cid, fv)), GasLimit: 0}}
+	if err := s.sdb.SetGenesis(g, nil); err != nil {
+		panic(err)
+	}
+	s.cid, _ = g.ID.Bytes()
+	s.bs = s.sdb.NewBlockState(s.sdb.GetRoot())
+	scs := s.sys()
+	system.InitSystemParams(scs, 3)
+	if err := system.InitVotingPowerRank(scs); err != nil {
+		panic(err)
+	}
+	s.emit(fmt.Sprintf("new %d", fv), "ok", false)
+	return s
+}
+
+func (s *sess) close() { s.sdb.Close() }
+
+func (s *sess) sys() *statedb.ContractState {
+	scs, err := statedb.GetSystemAccountState(s.bs.StateDB)
+	if err != nil {
+		panic(err)
+	}
+	return scs
+}
+
+func (s *sess) nameCS() *statedb.ContractState {
+	scs, err := statedb.GetNameAccountState(s.bs.StateDB)
+	if err != nil {
+		panic(err)
+	}
+	return scs
+}
+
+func (s *sess) balance(a []byte) *big.Int {
+	as, err := state.GetAccountState(a, s.bs.StateDB)
+	if err != nil {
+		panic(err)
+	}
+	return as.Balance()
+}
+
+// addAcct declares an account with a balance.
+func (s *sess) addAcct(addr []byte, bal *big.Int) *acct {
+	a := &acct{addr: addr, id: types.ToAccountID(addr)}
+	s.accts = append(s.accts, a)
+	as, _ := state.GetAccountState(addr, s.bs.StateDB)
+	as.AddBalance(bal)
+	as.PutState()
+	s.emit(fmt.Sprintf("acct %s %s %s", hx(addr), hx(a.id[:]), bal), "ok", false)
+	return a
+}
+
+func (s *sess) emit(op, res string, nontrivial bool) {
+	s.ops = append(s.ops, op)
+	s.run.Op(op, res+" | "+s.obs(), nontrivial)
+}
+
+// ---------------------------------------------------------------- observation (canonical state)
+
+type voteRec struct {
+	issue  string
+	addr   []byte
+	amount *big.Int
+	cands  [][]byte
+}
+
+type entry struct {
+	cand []byte
+	amt  *big.Int
+}
+
+func realLess(a, b entry) bool {
+	vl := types.VoteList{Votes: []*types.Vote{{Candidate: a.cand, Amount: a.amt.Bytes()}, {Candidate: b.cand, Amount: b.amt.Bytes()}}}
+	return vl.Less(0, 1)
+}
+
+// canonRank sorts every maximal run of adjacent mutually tied entries by candidate hex (the order inside
+// such a run comes from Go's map iteration).
+func canonRank(l []entry) []entry {
+	var out, grp []entry
+	flush := func() {
+		sort.SliceStable(grp, func(i, j int) bool { return hx(grp[i].cand) < hx(grp[j].cand) })
+		out = append(out, grp...)
+		grp = nil
+	}
+	for _, x := range l {
+		if len(grp) > 0 {
+			y := grp[len(grp)-1]
+			if !(!realLess(y, x) && !realLess(x, y)) {
+				flush()
+			}
+		}
+		grp = append(grp, x)
+	}
+	flush()
+	return out
+}
+
+func showRank(l []entry) string {
+	var xs []string
+	for _, e := range canonRank(l) {
+		xs = append(xs, hx(e.cand)+":"+e.amt.String())
+	}
+	return joinC(xs)
+}
+
+type view struct {
+	total   *big.Int
+	stakes  map[string]*types.Staking // hex addr -> record (only existing records)
+	votes   []voteRec
+	ranks   map[string][]entry
+	vtotal  map[string]*big.Int
+	mem     *system.VerifC15VprView
+	load    *system.VerifC15VprView
+	bal     map[string]*big.Int
+	namesB  map[string][2][]byte
+	namesI  map[string][2][]byte
+	sysBal  *big.Int
+	nameBal *big.Int
+}
+
+func (s *sess) issueKey(id string) []byte {
+	if id == "voteBP" {
+		return bpKey
+	}
+	return system.GenProposalKey(id)
+}
+
+func (s *sess) look() *view {
+	scs := s.sys()
+	v := &view{stakes: map[string]*types.Staking{}, ranks: map[string][]entry{}, vtotal: map[string]*big.Int{},
+		bal: map[string]*big.Int{}, namesB: map[string][2][]byte{}, namesI: map[string][2][]byte{}}
+	var err error
+	if v.total, err = system.GetStakingTotal(scs); err != nil {
+		panic(err)
+	}
+	for _, a := range s.accts {
+		st, err := system.GetStaking(scs, a.addr)
+		if err != nil {
+			panic(err)
+		}
+		if st.GetAmount() != nil {
+			v.stakes[hx(a.addr)] = st
+		}
+		for _, is := range issues {
+			vt, err := system.GetVote(scs, a.addr, s.issueKey(is))
+			if err != nil {
+				panic(err)
+			}
+			if vt.Amount == nil {
+				continue
+			}
+			r := voteRec{issue: is, addr: a.addr, amount: new(big.Int).SetBytes(vt.Amount)}
+			if is == "voteBP" {
+				c := vt.Candidate
+				for len(c) > 0 {
+					n := 39
+					if len(c) < n {
+						n = len(c)
+					}
+					r.cands = append(r.cands, c[:n])
+					c = c[n:]
+				}
+			} else {
+				var args []string
+				if err := json.Unmarshal(vt.Candidate, &args); err != nil {
+					panic(err)
+				}
+				for _, x := range args {
+					r.cands = append(r.cands, []byte(x))
+				}
+			}
+			v.votes = append(v.votes, r)
+		}
+	}
+	for _, is := range issues {
+		vl, err := system.GetVoteResult(scs, []byte(is), 1<<30)
+		if err != nil {
+			panic(err)
+		}
+		var es []entry
+		for _, x := range vl.Votes {
+			es = append(es, entry{x.Candidate, new(big.Int).SetBytes(x.Amount)})
+		}
+		v.ranks[is] = es
+		if is != "voteBP" {
+			d, err := scs.GetData(dbkey.SystemVoteTotal(s.issueKey(is)))
+			if err != nil {
+				panic(err)
+			}
+			v.vtotal[is] = new(big.Int).SetBytes(d)
+		}
+	}
+	v.mem = system.VerifC15VprMemory()
+	if v.load, err = system.VerifC15VprLoad(scs); err != nil {
+		panic(err)
+	}
+	for _, a := range s.accts {
+		v.bal[hx(a.addr)] = s.balance(a.addr)
+	}
+	v.sysBal = s.balance(sysAddr)
+	v.nameBal = s.balance(nmAddr)
+	v.bal[hx(sysAddr)] = v.sysBal
+	v.bal[hx(nmAddr)] = v.nameBal
+	ncs := s.nameCS()
+	for _, n := range append([]string{types.AergoName}, s.names...) {
+		if o, d, ok := name.VerifC15NameMap(ncs, []byte(n), false); ok {
+			v.namesB[n] = [2][]byte{o, d}
+		}
+		if o, d, ok := name.VerifC15NameMap(ncs, []byte(n), true); ok {
+			v.namesI[n] = [2][]byte{o, d}
+		}
+	}
+	return v
+}
+
+func showVP(p system.VerifC15VP) string { return hx(p.ID) + ":" + hx(p.Addr) + ":" + p.Power.String() }
+
+func showVpr(w *system.VerifC15VprView, changes bool) string {
+	var ps []string
+	for _, p := range w.Powers {
+		ps = append(ps, showVP(p))
+	}
+	sort.Strings(ps)
+	var idx []int
+	for i := range w.Buckets {
+		idx = append(idx, int(i))
+	}
+	sort.Ints(idx)
+	var bs []string
+	for _, i := range idx {
+		var xs []string
+		for _, p := range w.Buckets[uint8(i)] {
+			xs = append(xs, showVP(p))
+		}
+		bs = append(bs, fmt.Sprintf("%d=[%s]", i, joinC(xs)))
+	}
+	c := ""
+	if changes {
+		var cs []string
+		for _, p := range w.Changes {
+			cs = append(cs, showVP(p))
+		}
+		sort.Strings(cs)
+		c = " c=[" + joinC(cs) + "]"
+	}
+	return fmt.Sprintf("{t=%s p=[%s] b=[%s]%s}", w.Total, joinC(ps), strings.Join(bs, " "), c)
+}
+
+func showNames(m map[string][2][]byte) string {
+	var xs []string
+	for n, r := range m {
+		xs = append(xs, hx([]byte(n))+":"+hx(r[0])+":"+hx(r[1]))
+	}
+	sort.Strings(xs)
+	return joinC(xs)
+}
+
+func (s *sess) obs() string { return s.show(s.look()) }
+
+func (s *sess) show(v *view) string {
+	var st []string
+	for a, r := range v.stakes {
+		st = append(st, fmt.Sprintf("%s:%s@%d", a, r.GetAmountBigInt(), r.GetWhen()))
+	}
+	sort.Strings(st)
+	var vs []string
+	for _, r := range v.votes {
+		c := "-"
+		if len(r.cands) > 0 {
+			var xs []string
+			for _, x := range r.cands {
+				xs = append(xs, hx(x))
+			}
+			c = strings.Join(xs, "+")
+		}
+		vs = append(vs, fmt.Sprintf("%s/%s:%s:%s", r.issue, hx(r.addr), r.amount, c))
+	}
+	sort.Strings(vs)
+	var rk, vt, p, np []string
+	for _, is := range issues {
+		rk = append(rk, fmt.Sprintf("r.%s=[%s]", is, showRank(v.ranks[is])))
+	}
+	for _, id := range daoIDs {
+		vt = append(vt, id+":"+v.vtotal[id].String())
+		p = append(p, id+":"+system.GetParam(id).String())
+		np = append(np, id+":"+system.GetNextBlockParam(id).String())
+	}
+	var bl []string
+	for a, b := range v.bal {
+		if b.Sign() != 0 {
+			bl = append(bl, a+":"+b.String())
+		}
+	}
+	sort.Strings(bl)
+	return fmt.Sprintf("T=%s st=[%s] v=[%s] %s vt=[%s] p=[%s] np=[%s] vm=%s vd=%s nm=[%s] ni=[%s] b=[%s]",
+		v.total, joinC(st), joinC(vs), strings.Join(rk, " "), joinC(vt), joinC(p), joinC(np),
+		showVpr(v.mem, true), showVpr(v.load, false), showNames(v.namesB), showNames(v.namesI), joinC(bl))
+}
+
+// ---------------------------------------------------------------- execution through the real executor
+
+func classify(err error) string {
+	switch err {
+	case nil:
+		return "ok"
+	case types.ErrInsufficientBalance:
+		return "insufficient"
+	case types.ErrLessTimeHasPassed:
+		return "lesstime"
+	case types.ErrTooSmallAmount:
+		return "toosmall"
+	case types.ErrMustStakeBeforeVote:
+		return "muststake-vote"
+	case types.ErrMustStakeBeforeUnstake:
+		return "muststake-unstake"
+	case types.ErrExceedAmount:
+		return "exceed"
+	}
+	m := err.Error()
+	for _, c := range [][2]string{
+		{"not supported operation", "notsupported"},
+		{"args[0] invalid id", "dao-badid"},
+		{"too many candidates", "dao-toomany"},
+		{"include invalid number range", "dao-badrange"},
+		{"include invalid number", "dao-badnumber"},
+		{"aleady occupied", "occupied"},
+		{"owner not matched", "owner-mismatch"},
+		{"is not created yet", "not-created"},
+		{"owner aleady set", "owner-set"},
+	} {
+		if strings.Contains(m, c[0]) {
+			return c[1]
+		}
+	}
+	return "other:" + m
+}
+
+func (s *sess) blockInfo() *types.BlockHeaderInfo {
+	return &types.BlockHeaderInfo{No: s.h, ForkVersion: s.fv, ChainId: types.MakeChainId(s.cid, s.fv)}
+}
+
+// execTx runs one transaction the way chain.NewTxExecutor does: snapshot, executeTx, rollback on error.
+// A transaction that the admission rules (types.Validate) refuse is run through the governance executor
+// directly (only generated for duplicate candidates).
+func (s *sess) execTx(txAcc, sender, rcpt []byte, amount *big.Int, typ types.TxType, payload string) string {
+	bi := s.blockInfo()
+	as, err := state.GetAccountState(sender, s.bs.StateDB)
+	if err != nil {
+		panic(err)
+	}
+	tx := &types.Tx{Body: &types.TxBody{Account: txAcc, Recipient: rcpt, Amount: amount.Bytes(), Nonce: as.Nonce() + 1,
+		Type: typ, Payload: []byte(payload), ChainIdHash: common.Hasher(bi.ChainId)}}
 	tx.Hash = tx.CalculateTxHash()
 	txe := types.NewTransaction(tx)
-	fmt.Println("types.Validate:", txe.Validate(bi.ChainIdHash(), true))
-	w.bs.SetGasPrice(system.GetGasPrice())
-	snap := w.bs.Snapshot()
-	err := chain.VerifC15ExecuteTx(stubCcc{}, w.bs, txe, bi)
-	fmt.Println("executeTx TRANSFER to aergo.system:", err)
+	s.bs.SetGasPrice(system.GetGasPrice())
+	snap := s.bs.Snapshot()
+	var res string
+	if verr := txe.Validate(bi.ChainIdHash(), false); verr != nil {
+		if typ != types.TxType_GOVERNANCE || string(rcpt) != types.AergoSystem {
+			panic(fmt.Sprintf("generator: transaction not admitted: %v (%s)", verr, payload))
+		}
+		s.run.Count("path:direct")
+		out, p := vh.Guard(func() string {
+			receiver, _ := state.GetAccountState(rcpt, s.bs.StateDB)
+			scs, err := statedb.OpenContractState(receiver.IDNoPadding(), receiver.State(), s.bs.StateDB)
+			if err != nil {
+				panic(err)
+			}
+			_, e := system.ExecuteSystemTx(scs, tx.Body, as, receiver, bi)
+			if e == nil {
+				statedb.StageContractState(scs, s.bs.StateDB)
+				as.PutState()
+				receiver.PutState()
+			}
+			return classify(e)
+		})
+		res = out
+		if p {
+			res = "panic"
+		}
+	} else {
+		s.run.Count("path:tx")
+		out, p := vh.Guard(func() string { return classify(chain.VerifC15ExecuteTx(stubCcc{}, s.bs, txe, bi)) })
+		res = out
+		if p {
+			res = "panic"
+			s.run.Sample("panic in executeTx: " + out + " on " + payload)
+		}
+	}
+	if res != "ok" {
+		if err := s.bs.Rollback(snap); err != nil {
+			panic(err)
+		}
+	}
+	if res == "panic" {
+		s.dead = true
+	}
+	return res
+}
+
+func (s *sess) sysTx(a *acct, amount *big.Int, payload string) string {
+	return s.execTx(a.addr, a.addr, sysAddr, amount, types.TxType_GOVERNANCE, payload)
+}
+
+// ---------------------------------------------------------------- operations (with the property's clauses as oracle)
+
+func (s *sess) replay(extra ...string) map[string]interface{} {
+	return map[string]interface{}{"session": s.label, "fork_version": s.fv,
+		"ops": append(append([]string{}, s.ops...), extra...),
+		"how": "op lines of harness/c15 (see lean/Drv/C15.lean): executed in order on a fresh memorydb StateDB through chain.executeTx"}
+}
+
+func (s *sess) fail(what string) {
+	s.run.Fail(what, s.replay())
+}
+
+func minStake() *big.Int { return system.GetStakingMinimum() }
+
+func (s *sess) stake(a *acct, amt *big.Int) {
+	if s.dead {
+		return
+	}
+	pre := s.look()
+	op := fmt.Sprintf("stake %s %d %s", hx(a.addr), s.h, amt)
+	res := s.sysTx(a, amt, `{"Name":"v1stake"}`)
+	s.emit(op, res, res == "ok")
+	s.run.Count("stake:" + res)
+	post := s.look()
+	// lock_rules: refused iff within the delay / below the minimum (other refusal: balance)
+	rec := pre.stakes[hx(a.addr)]
+	cur := new(big.Int)
+	locked := false
+	if rec != nil {
+		cur = rec.GetAmountBigInt()
+		locked = rec.GetWhen()+system.StakingDelay > s.h
+	}
+	below := new(big.Int).Add(cur, amt).Cmp(minStake()) < 0
+	poor := pre.bal[hx(a.addr)].Cmp(amt) < 0
+	if (res == "ok") == (locked || below || poor) {
+		s.fail(fmt.Sprintf("lock rule: %s returned %s with locked=%v belowMinimum=%v insufficientBalance=%v", op, res, locked, below, poor))
+	}
+	if res == "ok" {
+		s.exact(op, a, pre, post, amt, +1)
+	} else {
+		s.unchanged(op, pre, post)
+	}
+	s.inv(post)
+}
+
+func (s *sess) unstake(a *acct, amt *big.Int) {
+	if s.dead {
+		return
+	}
+	pre := s.look()
+	op := fmt.Sprintf("unstake %s %d %s", hx(a.addr), s.h, amt)
+	res := s.sysTx(a, amt, `{"Name":"v1unstake"}`)
+	s.emit(op, res, res == "ok")
+	s.run.Count("unstake:" + res)
+	if s.dead {
+		return
+	}
+	post := s.look()
+	rec := pre.stakes[hx(a.addr)]
+	refuse := true
+	if rec != nil && rec.GetAmountBigInt().Sign() > 0 {
+		cur := rec.GetAmountBigInt()
+		locked := rec.GetWhen()+system.StakingDelay > s.h
+		exceed := cur.Cmp(amt) < 0
+		rest := new(big.Int).Sub(cur, amt)
+		below := rest.Sign() > 0 && rest.Cmp(minStake()) < 0
+		refuse = locked || exceed || below
+		if rest.Sign() > 0 && rest.Cmp(minStake()) >= 0 && amt.Sign() > 0 {
+			s.run.Count("unstake-shape:partial")
+		}
+	}
+	if (res == "ok") == refuse {
+		s.fail(fmt.Sprintf("lock rule: %s returned %s although the rules say refuse=%v", op, res, refuse))
+	}
+	if res == "ok" {
+		s.exact(op, a, pre, post, amt, -1)
+		// votes shrunk by the refresh
+		for _, r := range pre.votes {
+			if bytes.Equal(r.addr, a.addr) && r.amount.Cmp(post.stakes[hx(a.addr)].GetAmountBigInt()) > 0 {
+				s.run.Count("unstake-shape:shrinks-vote")
+			}
+		}
+	} else {
+		s.unchanged(op, pre, post)
+	}
+	s.inv(post)
+}
+
+// exact: a successful stake (+1) / unstake (-1) of x moves exactly x between sender and aergo.system and
+// changes record and total by x.
+func (s *sess) exact(op string, a *acct, pre, post *view, x *big.Int, sign int) {
+	d := func(after, before *big.Int) *big.Int { return new(big.Int).Sub(after, before) }
+	want := new(big.Int).Set(x)
+	if sign < 0 {
+		want.Neg(want)
+	}
+	neg := new(big.Int).Neg(want)
+	cur := new(big.Int)
+	if r := pre.stakes[hx(a.addr)]; r != nil {
+		cur = r.GetAmountBigInt()
+	}
+	got := post.stakes[hx(a.addr)]
+	if got == nil ||
+		d(got.GetAmountBigInt(), cur).Cmp(want) != 0 ||
+		d(post.total, pre.total).Cmp(want) != 0 ||
+		d(post.sysBal, pre.sysBal).Cmp(want) != 0 ||
+		d(post.bal[hx(a.addr)], pre.bal[hx(a.addr)]).Cmp(neg) != 0 {
+		s.fail(fmt.Sprintf("%s succeeded but did not move exactly %s: record %v -> %v, total %s -> %s, system balance %s -> %s, sender %s -> %s",
+			op, x, cur, got, pre.total, post.total, pre.sysBal, post.sysBal, pre.bal[hx(a.addr)], post.bal[hx(a.addr)]))
+	}
+}
+
+// unchanged: a refused operation leaves the governance state as it was.
+func (s *sess) unchanged(op string, pre, post *view) {
+	if s.dead {
+		return
+	}
+	if a, b := s.show(pre), s.show(post); a != b {
+		s.fail(fmt.Sprintf("%s was refused but changed the state:\n before %s\n after  %s", op, a, b))
+	}
+}
+
+func (s *sess) voteBP(a *acct, cands [][]byte) {
+	if s.dead {
+		return
+	}
+	pre := s.look()
+	var enc, hs []string
+	aligned := 0
+	for _, c := range cands {
+		enc = append(enc, `"`+base58.Encode(c)+`"`)
+		hs = append(hs, hx(c))
+		aligned += len(c)
+	}
+	cs := "-"
+	if len(hs) > 0 {
+		cs = joinC(hs)
+	}
+	op := fmt.Sprintf("votebp %s %d %s", hx(a.addr), s.h, cs)
+	res := s.sysTx(a, new(big.Int), `{"Name":"v1voteBP","Args":[`+joinC(enc)+`]}`)
+	if aligned%39 != 0 {
+		// not modelled: the model answers with this token and the session stops being compared
+		s.not39 = true
+		s.ops = append(s.ops, op)
+		s.run.Op(op, "unmodelled-misaligned-candidate | "+s.show(pre), true)
+		s.run.Count("votebp:misaligned:" + res)
+		if !s.dead {
+			s.inv(s.look())
+		}
+		s.dead = true
+		return
+	}
+	s.emit(op, res, res == "ok")
+	s.run.Count("votebp:" + res)
+	if s.dead {
+		return
+	}
+	post := s.look()
+	s.voteRule(op, "voteBP", a, pre, post, res)
+	if res == "ok" {
+		for _, r := range pre.votes {
+			if r.issue == "voteBP" && bytes.Equal(r.addr, a.addr) {
+				s.run.Count("votebp-shape:revote")
+				for _, c := range r.cands {
+					for _, c2 := range cands {
+						if bytes.Equal(c, c2) {
+							s.run.Count("votebp-shape:revote-overlap")
+						}
+					}
+				}
+			}
+		}
+	}
+	s.inv(post)
+}
+
+func (s *sess) voteRule(op, issue string, a *acct, pre, post *view, res string) {
+	rec := pre.stakes[hx(a.addr)]
+	refuse := true
+	if rec != nil && rec.GetAmountBigInt().Sign() > 0 {
+		voted := false
+		for _, r := range pre.votes {
+			if r.issue == issue && bytes.Equal(r.addr, a.addr) {
+				voted = true
+			}
+		}
+		refuse = voted && rec.GetWhen()+system.VotingDelay > s.h
+	}
+	if res == "ok" && refuse {
+		s.fail(fmt.Sprintf("lock rule: %s succeeded although a re-vote within the voting delay / without stake must be refused", op))
+	}
+	if res != "ok" && !refuse && (res == "lesstime" || res == "muststake-vote") {
+		s.fail(fmt.Sprintf("lock rule: %s refused with %s although the account has stake and is outside the delay", op, res))
+	}
+	if res != "ok" {
+		s.unchanged(op, pre, post)
+	}
+}
+
+func (s *sess) voteDAO(a *acct, id string, args []string) {
+	if s.dead {
+		return
+	}
+	pre := s.look()
+	var enc, hs []string
+	enc = append(enc, `"`+id+`"`)
+	for _, x := range args {
+		enc = append(enc, `"`+x+`"`)
+		hs = append(hs, hx([]byte(x)))
+	}
+	as := "-"
+	if len(hs) > 0 {
+		as = joinC(hs)
+	}
+	op := fmt.Sprintf("votedao %s %d %s %s", hx(a.addr), s.h, id, as)
+	res := s.sysTx(a, new(big.Int), `{"Name":"v1voteDAO","Args":[`+joinC(enc)+`]}`)
+	s.emit(op, res, res == "ok")
+	s.run.Count("votedao:" + res)
+	if s.dead {
+		return
+	}
+	post := s.look()
+	s.voteRule(op, strings.ToUpper(id), a, pre, post, res)
+	if res == "ok" {
+		for _, i := range daoIDs {
+			if system.GetNextBlockParam(i).Cmp(system.GetParam(i)) != 0 {
+				s.run.Count("votedao-shape:param-changes-next-block")
+			}
+		}
+	}
+	s.inv(post)
+}
+
+func (s *sess) transfer(from *acct, to []byte, amt *big.Int) {
+	if s.dead {
+		return
+	}
+	pre := s.look()
+	op := fmt.Sprintf("transfer %s %s %s", hx(from.addr), hx(to), amt)
+	res := s.execTx(from.addr, from.addr, to, amt, types.TxType_TRANSFER, "")
+	if res == "ok" && bytes.Equal(to, sysAddr) && amt.Sign() > 0 {
+		s.sysXfer = true
+	}
+	s.emit(op, res, res == "ok")
+	s.run.Count("transfer:" + res)
+	post := s.look()
+	if res != "ok" {
+		s.unchanged(op, pre, post)
+	}
+	s.inv(post)
+}
+
+func (s *sess) useName(n string) {
+	for _, x := range s.names {
+		if x == n {
+			return
+		}
+	}
+	s.names = append(s.names, n)
+}
+
+func (s *sess) nameCreate(a *acct, n string, amt *big.Int) {
+	if s.dead {
+		return
+	}
+	s.useName(n)
+	pre := s.look()
+	op := fmt.Sprintf("namecreate %s %s %s", hx(a.addr), hx([]byte(n)), amt)
+	res := s.execTx(a.addr, a.addr, nmAddr, amt, types.TxType_GOVERNANCE, `{"Name":"v1createName","Args":["`+n+`"]}`)
+	s.emit(op, res, res == "ok")
+	s.run.Count("namecreate:" + res)
+	post := s.look()
+	_, was := pre.namesB[n]
+	if res == "ok" {
+		now, ok := post.namesB[n]
+		if was || !ok || !bytes.Equal(now[0], a.addr) || amt.Cmp(system.GetNamePrice()) < 0 {
+			s.fail(fmt.Sprintf("%s succeeded: name bound before=%v, owner after=%x, price %s", op, was, now[0], system.GetNamePrice()))
+		}
+		// paid: the sender's balance went down by the amount, the name account (or the contract owner) got it
+		if d := new(big.Int).Sub(pre.bal[hx(a.addr)], post.bal[hx(a.addr)]); d.Cmp(amt) != 0 && !bytes.Equal(s.nameOwner(pre), a.addr) {
+			s.fail(fmt.Sprintf("%s succeeded but the sender paid %s", op, d))
+		}
+	} else {
+		s.unchanged(op, pre, post)
+	}
+	s.namesOthers(op, n, pre, post)
+	s.inv(post)
+}
+
+func (s *sess) nameOwner(v *view) []byte {
+	if r, ok := v.namesB[types.AergoName]; ok {
+		return r[0]
+	}
+	return nmAddr
+}
+
+// nameUpdate: txAcc is the account field of the transaction (an address or a name that resolves to sender).
+func (s *sess) nameUpdate(txAcc []byte, sender *acct, n string, to string, toRaw []byte, amt *big.Int) {
+	if s.dead {
+		return
+	}
+	s.useName(n)
+	pre := s.look()
+	op := fmt.Sprintf("nameupdate %s %s %s %s %s", hx(txAcc), hx(sender.addr), hx([]byte(n)), hx(toRaw), amt)
+	res := s.execTx(txAcc, sender.addr, nmAddr, amt, types.TxType_GOVERNANCE, `{"Name":"v1updateName","Args":["`+n+`","`+to+`"]}`)
+	s.emit(op, res, res == "ok")
+	s.run.Count("nameupdate:" + res)
+	post := s.look()
+	if res == "ok" {
+		before, was := pre.namesB[n]
+		if !(bytes.Equal(txAcc, []byte(n)) || (was && bytes.Equal(txAcc, before[0]))) || amt.Cmp(system.GetNamePrice()) < 0 {
+			s.fail(fmt.Sprintf("%s succeeded although the transaction account is neither the name nor its owner %x (or below the price)", op, before[0]))
+		}
+		if bytes.Equal(txAcc, []byte(n)) {
+			s.run.Count("nameupdate-shape:by-name-account")
+		}
+	} else {
+		s.unchanged(op, pre, post)
+	}
+	s.namesOthers(op, n, pre, post)
+	s.inv(post)
+}
+
+func (s *sess) setOwner(by *acct, owner *acct) {
+	if s.dead {
+		return
+	}
+	pre := s.look()
+	op := fmt.Sprintf("setowner %s", hx(owner.addr))
+	res := s.execTx(by.addr, by.addr, nmAddr, new(big.Int), types.TxType_GOVERNANCE, `{"Name":"v1setOwner","Args":["`+types.EncodeAddress(owner.addr)+`"]}`)
+	s.emit(op, res, res == "ok")
+	s.run.Count("setowner:" + res)
+	post := s.look()
+	if res != "ok" {
+		s.unchanged(op, pre, post)
+	}
+	s.namesOthers(op, types.AergoName, pre, post)
+	s.inv(post)
+}
+
+// namesOthers: an operation on one name leaves every other name as it was.
+func (s *sess) namesOthers(op, n string, pre, post *view) {
+	for k, r := range pre.namesB {
+		if k == n {
+			continue
+		}
+		r2, ok := post.namesB[k]
+		if !ok || !bytes.Equal(r[0], r2[0]) || !bytes.Equal(r[1], r2[1]) {
+			s.fail(fmt.Sprintf("%s changed another name %q", op, k))
+		}
+	}
+}
+
+func (s *sess) endBlock(next uint64) {
+	if s.dead {
+		return
+	}
+	if err := s.bs.Update(); err != nil {
+		panic(err)
+	}
+	if err := s.bs.Commit(); err != nil {
+		panic(err)
+	}
+	if err := s.sdb.UpdateRoot(s.bs); err != nil {
+		panic(err)
+	}
+	system.CommitParams(true)
+	s.bs = s.sdb.NewBlockState(s.sdb.GetRoot())
+	s.emit("endblock", "ok", false)
+	s.run.Count("endblock")
+	v := s.look()
+	// the rank reloaded from the *committed* state by a fresh state db
+	fresh := s.sdb.OpenNewStateDB(s.sdb.GetRoot())
+	fscs, err := statedb.GetSystemAccountState(fresh)
 	if err != nil {
-		w.bs.Rollback(snap)
+		panic(err)
 	}
-	rs := w.bs.Receipts().Get()
-	for _, r := range rs {
-		fmt.Println("receipt", r.Status, r.Ret)
+	ld, err := system.VerifC15VprLoad(fscs)
+	if err != nil {
+		panic(err)
 	}
-	w.commit()
-	w.dump("C1")
+	if showVpr(ld, false) != showVpr(v.mem, false) {
+		s.fail("block boundary: the live voting-power rank " + showVpr(v.mem, false) + " differs from the rank reloaded from the committed state " + showVpr(ld, false))
+	}
+	if showNames(v.namesB) != showNames(v.namesI) {
+		s.fail("block boundary: buffered names " + showNames(v.namesB) + " differ from committed names " + showNames(v.namesI))
+	}
+	s.inv(v)
+	s.h = next
+}
+
+func (s *sess) restart() {
+	if s.dead {
+		return
+	}
+	scs := s.sys()
+	system.InitSystemParams(scs, 3)
+	if err := system.InitVotingPowerRank(scs); err != nil {
+		panic(err)
+	}
+	s.emit("restart", "ok", false)
+	s.run.Count("restart")
+	s.inv(s.look())
+}
+
+// ---------------------------------------------------------------- GInv on the real state
+
+func (s *sess) inv(v *view) {
+	s.run.Eval("", false)
+	// total = sum of stakes = balance of aergo.system
+	sum := new(big.Int)
+	for _, r := range v.stakes {
+		sum.Add(sum, r.GetAmountBigInt())
+	}
+	if sum.Cmp(v.total) != 0 {
+		s.fail(fmt.Sprintf("recorded total stake %s differs from the sum of the staking records %s", v.total, sum))
+	}
+	if v.sysBal.Cmp(v.total) != 0 {
+		what := fmt.Sprintf("balance of aergo.system %s differs from the recorded total stake %s", v.sysBal, v.total)
+		if s.sysXfer {
+			s.fd.known(kSysXfer, what+" after a plain transfer to aergo.system (executed with a SUCCESS receipt)", s.replay())
+		} else {
+			s.fail(what)
+		}
+	}
+	// tally = sum of the voting amounts of the accounts voting for the candidate (with multiplicity); vote <= stake
+	for _, is := range issues {
+		want := map[string]*big.Int{}
+		for _, r := range v.votes {
+			if r.issue != is {
+				continue
+			}
+			st := new(big.Int)
+			if x := v.stakes[hx(r.addr)]; x != nil {
+				st = x.GetAmountBigInt()
+			}
+			if r.amount.Cmp(st) > 0 {
+				what := fmt.Sprintf("voting amount %s recorded for %s/%x exceeds its stake %s", r.amount, is, r.addr, st)
+				if s.not39 {
+					s.fd.known(kNot39, what, s.replay())
+				} else {
+					s.fail(what)
+				}
+			}
+			for _, c := range r.cands {
+				k := string(c)
+				if want[k] == nil {
+					want[k] = new(big.Int)
+				}
+				want[k].Add(want[k], r.amount)
+			}
+		}
+		got := map[string]*big.Int{}
+		for _, e := range v.ranks[is] {
+			got[string(e.cand)] = e.amt
+		}
+		bad := ""
+		for k, w := range want {
+			g := got[k]
+			if g == nil || g.Cmp(w) != 0 {
+				bad = fmt.Sprintf("%s: tally of candidate %x is %v, the votes recorded for it sum to %s", is, k, g, w)
+			}
+		}
+		for k, g := range got {
+			if want[k] == nil && g.Sign() != 0 {
+				bad = fmt.Sprintf("%s: tally of candidate %x is %s but no recorded vote names it", is, k, g)
+			}
+		}
+		if bad != "" {
+			if s.not39 {
+				s.fd.known(kNot39, bad+" (after a voteBP naming a candidate that is not 39 bytes long)", s.replay())
+			} else {
+				s.fail(bad)
+			}
+		}
+		// ranking = tallies in Less order, Less a strict total order on the tallied entries
+		l := v.ranks[is]
+		for i := 0; i+1 < len(l); i++ {
+			var ab, ba bool
+			if _, p := vh.Guard(func() string { ab = realLess(l[i], l[i+1]); ba = realLess(l[i+1], l[i]); return "" }); p {
+				s.fail(fmt.Sprintf("%s: VoteList.Less panics on %x / %x", is, l[i].cand, l[i+1].cand))
+				continue
+			}
+			if ab {
+				s.fail(fmt.Sprintf("%s: persisted ranking is not in order: %x:%s is Less than its successor %x:%s", is, l[i].cand, l[i].amt, l[i+1].cand, l[i+1].amt))
+			} else if !ba {
+				what := fmt.Sprintf("%s: candidates %x and %x (tally %s each) are not ordered by VoteList.Less in either direction: their rank order is whatever the map iteration produced", is, l[i].cand, l[i+1].cand, l[i].amt)
+				if len(l[i].cand) == 39 && len(l[i+1].cand) == 39 && bytes.Equal(l[i].cand[7:], l[i+1].cand[7:]) {
+					rp := s.replay()
+					rp["orders_seen_in_64_rebuilds"] = s.rebuilds(v.ranks[is])
+					s.fd.known(kTie, what, rp)
+				} else if s.not39 {
+					s.fd.known(kNot39, what, s.replay())
+				} else {
+					s.fail(what)
+				}
+			}
+		}
+	}
+	// voting-power rank: memory = reload; totalPower = sum of powers
+	if a, b := showVpr(v.mem, false), showVpr(v.load, false); a != b {
+		s.fail("live voting-power rank " + a + " differs from the rank rebuilt from the persisted buckets " + b)
+	}
+	ps := new(big.Int)
+	for _, p := range v.mem.Powers {
+		ps.Add(ps, p.Power)
+	}
+	if ps.Cmp(v.mem.Total) != 0 {
+		s.fail(fmt.Sprintf("voting-power rank: totalPower %s differs from the sum of the voters' powers %s", v.mem.Total, ps))
+	}
+	if s.fv >= 2 {
+		// (statistic, not an oracle: the property does not say what a voter's power is)
+		okp := true
+		for _, a := range s.accts {
+			w := new(big.Int)
+			for _, r := range v.votes {
+				if bytes.Equal(r.addr, a.addr) {
+					w.Add(w, r.amount)
+				}
+			}
+			g := new(big.Int)
+			for _, p := range v.mem.Powers {
+				if bytes.Equal(p.ID, a.id[:]) {
+					g = p.Power
+				}
+			}
+			if g.Cmp(w) != 0 {
+				okp = false
+			}
+		}
+		if okp {
+			s.run.Count("vpr:power=sum-of-votes")
+		} else {
+			s.run.Count("vpr:power!=sum-of-votes")
+		}
+	}
+	// the ordered view of the live rank (red-black tree `members`, `lowest`) against the reloaded one
+	mm, ml := membersStr(v.mem), membersStr(v.load)
+	if mm != ml {
+		s.fd.known(kMembers, "the live voting-power rank's ordered member tree / lowest voter "+mm+" differs from the one rebuilt from persisted state "+ml+
+			" (buckets, powers and total agree)", s.replay())
+	}
+}
+
+func membersStr(w *system.VerifC15VprView) string {
+	var xs []string
+	for i, p := range w.Members {
+		if i > w.MembersSize+2 {
+			xs = append(xs, "...")
+			break
+		}
+		xs = append(xs, hx(p.ID[:4])+":"+p.Power.String())
+	}
+	lo := "nil"
+	if w.Lowest != nil {
+		lo = hx(w.Lowest.ID[:4]) + ":" + w.Lowest.Power.String()
+	}
+	return fmt.Sprintf("{size=%d members=[%s]%s lowest=%s}", w.MembersSize, joinC(xs), w.MembersPanic, lo)
+}
+
+// rebuilds: the real buildVoteList (via BuildOrderedCandidates) on the same tallies, 64 times: how many
+// different orders come out.
+func (s *sess) rebuilds(l []entry) map[string]int {
+	out := map[string]int{}
+	for i := 0; i < 64; i++ {
+		m := map[string]*big.Int{}
+		for _, e := range l {
+			m[base58.Encode(e.cand)] = new(big.Int).Set(e.amt)
+		}
+		var xs []string
+		for _, c := range system.BuildOrderedCandidates(m) {
+			b, _ := base58.Decode(c)
+			xs = append(xs, hx(b[:8]))
+		}
+		out[strings.Join(xs, ">")]++
+	}
+	return out
+}
+
+// ---------------------------------------------------------------- generators
+
+func peerID(par byte, x []byte) []byte {
+	b := []byte{0, 0x25, 8, 2, 0x12, 0x21, par}
+	return append(b, x...)
+}
+
+func (s *sess) mkAddr(rng *vh.Rng) []byte {
+	return append([]byte{2 + byte(rng.Intn(2))}, rng.Bytes(32)...)
+}
+
+// mkAddrBucket: an address whose account id falls into voting-power bucket b.
+func (s *sess) mkAddrBucket(rng *vh.Rng, b uint8) []byte {
+	for {
+		a := s.mkAddr(rng)
+		if system.VerifC15BucketIdx(types.ToAccountID(a)) == b {
+			return a
+		}
+	}
+}
+
+var nameChars = "abcdefghijklmnopqrstuvwxyz1234567890"
+
+func mkName(rng *vh.Rng) string {
+	b := make([]byte, 12)
+	for i := range b {
+		b[i] = nameChars[rng.Intn(len(nameChars))]
+	}
+	return string(b)
+}
+
+func (s *sess) pickH(rng *vh.Rng) uint64 {
+	// next block height: +1, or around the expiry of some account's delay
+	if rng.Chance(1, 3) {
+		return s.h + 1
+	}
+	scs := s.sys()
+	var whens []uint64
+	for _, a := range s.accts {
+		st, _ := system.GetStaking(scs, a.addr)
+		if st.GetAmount() != nil {
+			whens = append(whens, st.GetWhen())
+		}
+	}
+	if len(whens) == 0 {
+		return s.h + 1
+	}
+	w := whens[rng.Intn(len(whens))]
+	t := w + system.StakingDelay
+	switch rng.Intn(5) {
+	case 0:
+		t--
+	case 1:
+		t++
+	case 2:
+		t += uint64(rng.Intn(1000))
+	}
+	if t <= s.h {
+		return s.h + 1 + uint64(rng.Intn(3))*system.StakingDelay/2
+	}
+	return t
+}
+
+func (s *sess) randomSession(steps int, tiePool bool) {
+	rng := s.rng
+	na := 2 + rng.Intn(4)
+	sameBucket := rng.Bool()
+	b := uint8(rng.Intn(71))
+	for i := 0; i < na; i++ {
+		var a []byte
+		if sameBucket && i < 3 {
+			a = s.mkAddrBucket(rng, b)
+		} else {
+			a = s.mkAddr(rng)
+		}
+		bal := coins(int64(20000 + rng.Intn(200000)))
+		if rng.Chance(1, 8) {
+			bal = coins(int64(rng.Intn(12000)))
+		}
+		s.addAcct(a, bal)
+	}
+	// candidates: a few distinct ones; optionally pairs equal from byte 7 on (the tie shape)
+	nc := 2 + rng.Intn(4)
+	for i := 0; i < nc; i++ {
+		x := rng.Bytes(32)
+		s.cands = append(s.cands, peerID(2+byte(rng.Intn(2)), x))
+		if tiePool && rng.Chance(1, 2) {
+			c := peerID(2, x)
+			c2 := peerID(3, x)
+			s.cands[len(s.cands)-1] = c
+			s.cands = append(s.cands, c2)
+		}
+	}
+	for i := 0; i < 3; i++ {
+		s.names = append(s.names, mkName(rng))
+	}
+	amounts := func(a *acct) *big.Int {
+		min := minStake()
+		switch rng.Intn(8) {
+		case 0:
+			return new(big.Int).Set(min)
+		case 1:
+			return new(big.Int).Sub(min, big.NewInt(1))
+		case 2:
+			return new(big.Int).Mul(min, big.NewInt(int64(1+rng.Intn(4))))
+		case 3:
+			return new(big.Int).Add(s.balance(a.addr), big.NewInt(int64(rng.Intn(2))))
+		case 4:
+			return coins(int64(rng.Intn(3000)))
+		default:
+			return coins(int64(10000 + 1000*rng.Intn(30)))
+		}
+	}
+	for i := 0; i < steps && !s.dead; i++ {
+		a := s.accts[rng.Intn(len(s.accts))]
+		scs := s.sys()
+		st, _ := system.GetStaking(scs, a.addr)
+		cur := st.GetAmountBigInt()
+		switch k := rng.Intn(100); {
+		case k < 18:
+			s.stake(a, amounts(a))
+		case k < 34:
+			var x *big.Int
+			min := minStake()
+			switch rng.Intn(7) {
+			case 0:
+				x = new(big.Int).Set(cur)
+			case 1:
+				x = new(big.Int).Add(cur, big.NewInt(1))
+			case 2:
+				x = new(big.Int)
+			case 3: // leave exactly the minimum
+				x = new(big.Int).Sub(cur, min)
+				if x.Sign() < 0 {
+					x = new(big.Int).Set(cur)
+				}
+			case 4: // leave one below the minimum
+				x = new(big.Int).Sub(cur, new(big.Int).Sub(min, big.NewInt(1)))
+				if x.Sign() < 0 {
+					x = big.NewInt(1)
+				}
+			default: // partial
+				if cur.Sign() > 0 {
+					x = new(big.Int).Div(cur, big.NewInt(int64(2+rng.Intn(3))))
+				} else {
+					x = coins(1)
+				}
+			}
+			s.unstake(a, x)
+		case k < 58:
+			n := rng.Intn(4)
+			if rng.Chance(1, 12) {
+				n = 0
+			}
+			var cs [][]byte
+			used := map[int]bool{}
+			for j := 0; j < n; j++ {
+				c := rng.Intn(len(s.cands))
+				if used[c] && !rng.Chance(1, 10) {
+					continue
+				}
+				used[c] = true
+				cs = append(cs, s.cands[c])
+			}
+			s.voteBP(a, cs)
+		case k < 70:
+			id := daoIDs[rng.Intn(4)]
+			if rng.Chance(1, 4) {
+				id = strings.ToLower(id)
+			}
+			if rng.Chance(1, 20) {
+				id = "NOSUCHID"
+			}
+			var args []string
+			switch rng.Intn(12) {
+			case 0:
+				args = []string{"abc"}
+			case 1:
+				args = []string{"0"}
+			case 2:
+				args = []string{"5", "7"}
+			case 3:
+				args = []string{"101"}
+			case 4:
+				args = []string{"600000000000000000000000000"}
+			case 5:
+				args = []string{"007"}
+			case 6:
+				args = nil
+				if !rng.Chance(1, 4) {
+					args = []string{"13"}
+				}
+			default:
+				switch strings.ToUpper(id) {
+				case "BPCOUNT":
+					args = []string{fmt.Sprint(1 + rng.Intn(30))}
+				case "STAKINGMIN":
+					args = []string{coins(int64(1000 * (1 + rng.Intn(20)))).String()}
+				case "NAMEPRICE":
+					args = []string{coins(int64(1 + rng.Intn(5))).String()}
+				default:
+					args = []string{fmt.Sprint(1000000000 * (1 + rng.Intn(100)))}
+				}
+			}
+			s.voteDAO(a, id, args)
+		case k < 78:
+			var to []byte
+			switch rng.Intn(12) {
+			case 0:
+				to = nmAddr
+			case 1:
+				if rng.Chance(1, 3) {
+					to = sysAddr
+				} else {
+					to = a.addr
+				}
+			default:
+				to = s.accts[rng.Intn(len(s.accts))].addr
+			}
+			amt := coins(int64(rng.Intn(5000)))
+			if rng.Chance(1, 10) {
+				amt = new(big.Int).Add(s.balance(a.addr), big.NewInt(1))
+			}
+			s.transfer(a, to, amt)
+		case k < 84:
+			n := s.names[rng.Intn(len(s.names))]
+			amt := new(big.Int).Set(system.GetNamePrice())
+			switch rng.Intn(6) {
+			case 0:
+				amt.Sub(amt, big.NewInt(1))
+			case 1:
+				amt.Add(amt, coins(1))
+			}
+			s.nameCreate(a, n, amt)
+		case k < 90:
+			n := s.names[rng.Intn(len(s.names))]
+			amt := new(big.Int).Set(system.GetNamePrice())
+			if rng.Chance(1, 8) {
+				amt.Sub(amt, big.NewInt(1))
+			}
+			toA := s.accts[rng.Intn(len(s.accts))]
+			to, toRaw := types.EncodeAddress(toA.addr), toA.addr
+			if rng.Chance(1, 6) {
+				n2 := s.names[rng.Intn(len(s.names))]
+				to, toRaw = n2, []byte(n2)
+			}
+			txAcc, sender := a.addr, a
+			// the name itself as the transaction account, when it resolves (committed) to one of our accounts
+			if rng.Chance(1, 3) {
+				if _, d, ok := name.VerifC15NameMap(s.nameCS(), []byte(n), true); ok {
+					for _, x := range s.accts {
+						if bytes.Equal(x.addr, d) {
+							txAcc, sender = []byte(n), x
+						}
+					}
+				}
+			} else if rng.Chance(1, 2) {
+				// the current owner
+				if o, _, ok := name.VerifC15NameMap(s.nameCS(), []byte(n), false); ok {
+					for _, x := range s.accts {
+						if bytes.Equal(x.addr, o) {
+							txAcc, sender = x.addr, x
+						}
+					}
+				}
+			}
+			s.nameUpdate(txAcc, sender, n, to, toRaw, amt)
+		case k < 91:
+			o := s.accts[rng.Intn(len(s.accts))]
+			if !bytes.Equal(o.addr, a.addr) {
+				s.setOwner(a, o)
+			}
+		default:
+			s.endBlock(s.pickH(rng))
+			if rng.Chance(1, 6) {
+				s.restart()
+			}
+		}
+	}
+	if !s.dead {
+		s.endBlock(s.h + 1)
+	}
+}
+
+// ---------------------------------------------------------------- scripted sessions
+
+func fixedAddr(i int) []byte {
+	r := vh.NewRng(uint64(1000 + i))
+	return append([]byte{2 + byte(i&1)}, r.Bytes(32)...)
+}
+
+func fill(b byte) []byte { return bytes.Repeat([]byte{b}, 32) }
+
+const D = system.StakingDelay
+
+func scripted(run *vh.Run, fd *findings) {
+	// S1: delays exactly at their boundaries, partial unstake shrinking votes on overlapping candidate sets
+	{
+		s := newSess(run, fd, run.Rng.Fork(), 2, "scripted:boundaries")
+		a := s.addAcct(fixedAddr(0), coins(100000))
+		b := s.addAcct(fixedAddr(1), coins(100000))
+		c := s.addAcct(fixedAddr(2), coins(9999))
+		c1, c2, c3 := peerID(2, fill(0x11)), peerID(3, fill(0x22)), peerID(2, fill(0x33))
+		s.h = 10
+		s.stake(c, coins(9999))       // below the minimum
+		s.stake(c, coins(10000))      // insufficient balance
+		s.stake(a, coins(30000))      // ok, when = 10
+		s.stake(a, coins(1))          // within the delay
+		s.voteBP(b, [][]byte{c1})     // no stake
+		s.unstake(b, coins(1))        // no stake
+		s.voteBP(a, [][]byte{c1, c2}) // first vote: no delay
+		s.voteBP(a, [][]byte{c2})     // re-vote within the delay
+		s.stake(b, coins(20000))
+		s.voteBP(b, [][]byte{c2, c3})
+		s.endBlock(10 + D - 1)
+		s.unstake(a, coins(1000)) // one block early
+		s.voteBP(a, [][]byte{c3})
+		s.stake(a, coins(1))
+		s.endBlock(10 + D)
+		s.unstake(a, coins(40000)) // exceeds
+		s.unstake(a, coins(20001)) // would leave 9999
+		s.unstake(a, coins(10000)) // ok: votes of a shrink from 30000 to 20000
+		s.voteBP(a, [][]byte{c3})  // when was just reset by the unstake
+		s.endBlock(10 + 2*D)
+		s.voteBP(a, [][]byte{c1, c3}) // re-vote with an overlapping set
+		s.unstake(b, coins(20000))    // full unstake: votes of b shrink to 0
+		s.endBlock(10 + 3*D)
+		s.stake(b, coins(10000))
+		s.voteBP(b, nil) // vote for nobody
+		s.unstake(a, coins(20000))
+		s.restart()
+		s.endBlock(10 + 4*D)
+		s.close()
+	}
+	// S2: parameter votes: the staking minimum and the name price change at the next block
+	{
+		s := newSess(run, fd, run.Rng.Fork(), 2, "scripted:parameters")
+		a := s.addAcct(fixedAddr(3), coins(500000))
+		b := s.addAcct(fixedAddr(4), coins(500000))
+		s.h = 5
+		s.stake(a, coins(90000))
+		s.stake(b, coins(30000))
+		s.voteDAO(b, "stakingmin", []string{coins(20000).String()}) // 30000 of 120000: below the threshold
+		s.voteDAO(a, "STAKINGMIN", []string{coins(5000).String()})  // 90000 of 120000: wins, active next block
+		s.voteDAO(a, "namePrice", []string{coins(3).String()})
+		s.voteDAO(a, "BPCOUNT", []string{"5"})
+		s.voteDAO(a, "BPCOUNT", []string{"6"}) // within the delay
+		s.stake(b, coins(5000))                // delay
+		s.nameCreate(b, "name11112222", coins(1))
+		s.endBlock(5 + D)
+		s.nameCreate(b, "name33334444", coins(1)) // price is 3 now
+		s.nameCreate(b, "name33334444", coins(3))
+		s.unstake(b, coins(25000)) // leaves 5000: allowed by the new minimum; the vote of b shrinks
+		s.restart()
+		s.endBlock(5 + 2*D)
+		s.voteDAO(a, "STAKINGMIN", []string{coins(20000).String()})
+		s.endBlock(5 + 3*D)
+		s.stake(b, coins(1)) // 5001 < 20000
+		s.unstake(a, coins(90000))
+		s.endBlock(5 + 4*D)
+		s.close()
+	}
+	// S3: names
+	{
+		s := newSess(run, fd, run.Rng.Fork(), 2, "scripted:names")
+		a := s.addAcct(fixedAddr(5), coins(100))
+		b := s.addAcct(fixedAddr(6), coins(100))
+		c := s.addAcct(fixedAddr(7), big.NewInt(5))
+		n1, n2 := "abcdefgh1234", "zzzzyyyy9999"
+		s.h = 3
+		s.nameCreate(c, n1, coins(1)) // insufficient
+		s.nameCreate(a, n1, new(big.Int).Sub(coins(1), big.NewInt(1)))
+		s.nameCreate(a, n1, coins(1))
+		s.nameCreate(b, n1, coins(1))                                              // occupied
+		s.nameUpdate(a.addr, a, n1, types.EncodeAddress(b.addr), b.addr, coins(1)) // created in this block: not committed yet
+		s.endBlock(4)
+		s.nameUpdate(b.addr, b, n1, types.EncodeAddress(b.addr), b.addr, coins(1))     // not the owner
+		s.nameUpdate([]byte(n1), a, n1, types.EncodeAddress(b.addr), b.addr, coins(1)) // the name's account itself
+		s.endBlock(5)
+		s.nameUpdate(a.addr, a, n1, types.EncodeAddress(a.addr), a.addr, coins(1)) // a is no longer the owner
+		s.nameUpdate(b.addr, b, n1, n2, []byte(n2), coins(1))                      // destination: an unbound name
+		s.transfer(a, nmAddr, coins(2))
+		s.setOwner(a, b)
+		s.setOwner(b, a)              // already set
+		s.nameCreate(a, n2, coins(1)) // the payment goes to the contract owner now
+		s.endBlock(6)
+		s.close()
+	}
+	// S4: before hard fork 2: no voting-power rank, no parameter votes
+	{
+		s := newSess(run, fd, run.Rng.Fork(), 1, "scripted:fork1")
+		a := s.addAcct(fixedAddr(8), coins(100000))
+		s.h = 2
+		s.stake(a, coins(20000))
+		s.voteBP(a, [][]byte{peerID(2, fill(0x44))})
+		s.voteDAO(a, "BPCOUNT", []string{"5"})
+		s.endBlock(2 + D)
+		s.unstake(a, coins(10000))
+		s.endBlock(3 + 2*D)
+		s.close()
+	}
+	// K1: two candidates equal from byte 7 on with equal tallies (DESIGN lead 4)
+	{
+		s := newSess(run, fd, run.Rng.Fork(), 2, "scripted:tie")
+		a := s.addAcct(fixedAddr(9), coins(20000))
+		b := s.addAcct(fixedAddr(10), coins(20000))
+		s.h = 2
+		s.stake(a, coins(10000))
+		s.stake(b, coins(10000))
+		s.voteBP(a, [][]byte{peerID(2, fill(0x55))})
+		s.voteBP(b, [][]byte{peerID(3, fill(0x55))})
+		s.endBlock(3)
+		s.close()
+	}
+	// K2: the ordered member tree of the live rank after a voter's power changed (new finding)
+	{
+		s := newSess(run, fd, run.Rng.Fork(), 2, "scripted:members")
+		a := s.addAcct(fixedAddr(11), coins(100000))
+		b := s.addAcct(fixedAddr(12), coins(100000))
+		c := s.addAcct(fixedAddr(13), coins(100000))
+		c1 := peerID(2, fill(0x66))
+		s.h = 2
+		s.stake(a, coins(30000))
+		s.stake(b, coins(20000))
+		s.stake(c, coins(10000))
+		s.voteBP(a, [][]byte{c1})
+		s.voteBP(b, [][]byte{c1})
+		s.voteBP(c, [][]byte{c1})
+		s.endBlock(2 + D)
+		s.stake(c, coins(50000))
+		s.endBlock(2 + 2*D)
+		s.voteBP(c, [][]byte{c1})
+		s.endBlock(3 + 2*D)
+		s.close()
+	}
+	// K3: a plain transfer to the staking account (new finding)
+	{
+		s := newSess(run, fd, run.Rng.Fork(), 2, "scripted:transfer-to-system")
+		a := s.addAcct(fixedAddr(14), coins(20000))
+		s.h = 2
+		s.stake(a, coins(10000))
+		s.transfer(a, sysAddr, coins(7))
+		s.endBlock(3)
+		s.close()
+	}
+	// K4: a candidate that is a valid 38-byte (ed25519) peer id (DESIGN lead 4b)
+	{
+		s := newSess(run, fd, run.Rng.Fork(), 2, "scripted:candidate-38-bytes")
+		a := s.addAcct(fixedAddr(15), coins(20000))
+		s.h = 2
+		s.stake(a, coins(10000))
+		ed := append([]byte{0, 0x24, 8, 1, 0x12, 0x20}, fill(0x77)...)
+		if err := types.ValidateSystemTx(&types.TxBody{Payload: []byte(`{"Name":"v1voteBP","Args":["` + base58.Encode(ed) + `"]}`)}); err != nil {
+			run.Count("k4:not-admitted")
+		} else {
+			run.Count("k4:admitted")
+		}
+		s.voteBP(a, [][]byte{ed})
+		s.close()
+	}
+}
+
+// ---------------------------------------------------------------- pure operations: Less, sort, codecs
+
+func pureOps(run *vh.Run) {
+	rng := run.Rng.Fork()
+	n := run.Pick(400, 4000)
+	mkCand := func() []byte {
+		switch rng.Intn(8) {
+		case 0:
+			return peerID(2, fill(byte(rng.Intn(3))))
+		case 1:
+			return peerID(3, fill(byte(rng.Intn(3))))
+		case 2: // leading zero bytes after index 7
+			x := fill(0)
+			x[31] = byte(rng.Intn(3))
+			x[20+rng.Intn(11)] = byte(rng.Intn(2))
+			return peerID(2+byte(rng.Intn(2)), x)
+		case 3: // a parameter-vote candidate (short decimal string)
+			return []byte(fmt.Sprint(rng.Intn(200)))
+		case 4: // same digits with a leading zero
+			return []byte("0" + fmt.Sprint(rng.Intn(20)))
+		case 5:
+			return rng.Bytes(7 + rng.Intn(40))
+		default:
+			return peerID(2+byte(rng.Intn(2)), rng.Bytes(32))
+		}
+	}
+	mkAmt := func() *big.Int { return coins(int64(10000 * rng.Intn(4))) }
+	for i := 0; i < n; i++ {
+		a, b := entry{mkCand(), mkAmt()}, entry{mkCand(), mkAmt()}
+		if rng.Chance(2, 3) {
+			b.amt = a.amt
+		}
+		var ab, ba bool
+		_, p := vh.Guard(func() string { ab = realLess(a, b); ba = realLess(b, a); return "" })
+		out := fmt.Sprintf("%d %d", b01(ab), b01(ba))
+		if p {
+			out = "panic"
+		}
+		run.Op(fmt.Sprintf("less %s %s %s %s", hx(a.cand), a.amt, hx(b.cand), b.amt), out, true)
+		run.Count("less:" + out)
+	}
+	// a candidate shorter than 7 bytes on the right of a 39-byte one with equal amount: Candidate[7:] panics
+	{
+		a, b := entry{peerID(2, fill(1)), coins(1)}, entry{[]byte("13"), coins(1)}
+		_, p := vh.Guard(func() string { realLess(a, b); return "" })
+		out := "no-panic"
+		if p {
+			out = "panic"
+		}
+		run.Op(fmt.Sprintf("less %s %s %s %s", hx(a.cand), a.amt, hx(b.cand), b.amt), out, true)
+	}
+	for i := 0; i < n/4; i++ {
+		k := 1 + rng.Intn(7)
+		var es []entry
+		seen := map[string]bool{}
+		for j := 0; j < k; j++ {
+			var c []byte
+			if rng.Chance(1, 2) {
+				c = peerID(2+byte(rng.Intn(2)), fill(byte(rng.Intn(4))))
+			} else {
+				c = peerID(2+byte(rng.Intn(2)), rng.Bytes(32))
+			}
+			if seen[string(c)] {
+				continue
+			}
+			seen[string(c)] = true
+			es = append(es, entry{c, coins(int64(10000 * rng.Intn(3)))})
+		}
+		vl := types.VoteList{}
+		var xs []string
+		for _, e := range es {
+			vl.Votes = append(vl.Votes, &types.Vote{Candidate: e.cand, Amount: e.amt.Bytes()})
+			xs = append(xs, hx(e.cand)+":"+e.amt.String())
+		}
+		rng2 := rng.Fork()
+		for j := len(vl.Votes) - 1; j > 0; j-- { // the slice comes from a map: any order
+			q := rng2.Intn(j + 1)
+			vl.Votes[j], vl.Votes[q] = vl.Votes[q], vl.Votes[j]
+		}
+		sort.Sort(sort.Reverse(vl))
+		var got []entry
+		for _, v := range vl.Votes {
+			got = append(got, entry{v.Candidate, new(big.Int).SetBytes(v.Amount)})
+		}
+		run.Op("rank "+joinC(xs), showRank(got), true)
+		run.Count("rank")
+	}
+	// codecs
+	for i := 0; i < n/2; i++ {
+		amt := coins(int64(rng.Intn(100000))).Bytes()
+		if rng.Chance(1, 6) {
+			amt = nil
+		}
+		switch rng.Intn(7) {
+		case 0:
+			w := rng.Next() >> uint(rng.Intn(64))
+			d := system.VerifC15SerializeStaking(&types.Staking{Amount: amt, When: w})
+			r := system.VerifC15DeserializeStaking(d)
+			run.Op(fmt.Sprintf("codec staking %d %s", w, hx(amt)), fmt.Sprintf("%s -> %d %s", hx(d), r.When, hx(r.Amount)), true)
+			if r.When != w || !bytes.Equal(r.Amount, amt) {
+				run.Fail("staking record does not round-trip", map[string]interface{}{"when": w, "amount": hx(amt)})
+			}
+		case 1:
+			k := rng.Intn(4)
+			var c []byte
+			for j := 0; j < k; j++ {
+				c = append(c, peerID(2, rng.Bytes(32))...)
+			}
+			if rng.Chance(1, 5) { // not a multiple of 39: the framing breaks (reported by the sessions, here only corresponded)
+				c = append(c, rng.Bytes(1+rng.Intn(38))...)
+			}
+			d := system.VerifC15SerializeVote(&types.Vote{Candidate: c, Amount: amt})
+			r := system.VerifC15DeserializeVote(d)
+			run.Op(fmt.Sprintf("codec vote %s %s", hx(c), hx(amt)), fmt.Sprintf("%s -> %s %s", hx(d), hx(r.Candidate), hx(r.Amount)), true)
+			if len(c)%39 == 0 && (!bytes.Equal(r.Candidate, c) || !bytes.Equal(r.Amount, amt)) {
+				run.Fail("vote record with 39-byte candidates does not round-trip", map[string]interface{}{"candidate": hx(c), "amount": hx(amt)})
+			}
+			run.Count(fmt.Sprintf("codec-vote:aligned=%v", len(c)%39 == 0))
+		case 2:
+			c := []byte(`["` + fmt.Sprint(rng.Intn(1000)) + `"]`)
+			if rng.Chance(1, 4) {
+				c = rng.Bytes(rng.Intn(50))
+			}
+			d := system.VerifC15SerializeVoteEx(&types.Vote{Candidate: c, Amount: amt})
+			r := system.VerifC15DeserializeVoteEx(d)
+			run.Op(fmt.Sprintf("codec voteex %s %s", hx(c), hx(amt)), fmt.Sprintf("%s -> %s %s", hx(d), hx(r.Candidate), hx(r.Amount)), true)
+			if !bytes.Equal(r.Candidate, c) || !bytes.Equal(r.Amount, amt) {
+				run.Fail("parameter-vote record does not round-trip", map[string]interface{}{"candidate": hx(c), "amount": hx(amt)})
+			}
+		case 3:
+			ex := rng.Bool()
+			k := rng.Intn(5)
+			vl := &types.VoteList{}
+			var xs []string
+			for j := 0; j < k; j++ {
+				var c []byte
+				if ex {
+					c = []byte(fmt.Sprint(rng.Intn(1000)))
+				} else {
+					c = peerID(2, rng.Bytes(32))
+				}
+				a := coins(int64(rng.Intn(100000))).Bytes()
+				vl.Votes = append(vl.Votes, &types.Vote{Candidate: c, Amount: a})
+				xs = append(xs, hx(c)+":"+hx(a))
+			}
+			d := system.VerifC15SerializeVoteList(vl, ex)
+			r := system.VerifC15DeserializeVoteList(d, ex)
+			var ys []string
+			for _, v := range r.Votes {
+				ys = append(ys, hx(v.Candidate)+":"+hx(v.Amount))
+			}
+			l := "-"
+			if len(xs) > 0 {
+				l = joinC(xs)
+			}
+			run.Op(fmt.Sprintf("codec votelist %d %s", b01(ex), l), hx(d)+" -> "+joinC(ys), true)
+			if joinC(xs) != joinC(ys) {
+				run.Fail("vote list does not round-trip", map[string]interface{}{"ex": ex, "list": xs})
+			}
+		case 4:
+			id, addr := rng.Bytes(32), append([]byte{2}, rng.Bytes(32)...)
+			if rng.Chance(1, 5) {
+				addr = []byte("aergo.x")
+			}
+			pw := new(big.Int).SetBytes(amt)
+			d := system.VerifC15MarshalVP(id, addr, pw)
+			r, nn := system.VerifC15UnmarshalVP(d)
+			run.Op(fmt.Sprintf("codec vp %s %s %s", hx(id), hx(addr), hx(pw.Bytes())),
+				fmt.Sprintf("%s -> %s %s %s %d", hx(d), hx(r.ID), hx(r.Addr), hx(r.Power.Bytes()), nn), true)
+			if !bytes.Equal(r.ID, id) || !bytes.Equal(r.Addr, addr) || r.Power.Cmp(pw) != 0 || int(nn) != len(d) {
+				run.Fail("voting-power entry does not round-trip", map[string]interface{}{"id": hx(id), "addr": hx(addr), "power": pw.String()})
+			}
+		case 5:
+			k := rng.Intn(4)
+			var d []byte
+			var xs []string
+			for j := 0; j < k; j++ {
+				id, addr := rng.Bytes(32), append([]byte{3}, rng.Bytes(32)...)
+				pw := coins(int64(1 + rng.Intn(100000)))
+				d = append(d, system.VerifC15MarshalVP(id, addr, pw)...)
+				xs = append(xs, hx(id)+":"+hx(addr)+":"+hx(pw.Bytes()))
+			}
+			var ys []string
+			for off := 0; off < len(d); {
+				r, nn := system.VerifC15UnmarshalVP(d[off:])
+				off += int(nn)
+				ys = append(ys, hx(r.ID)+":"+hx(r.Addr)+":"+hx(r.Power.Bytes()))
+			}
+			l := "-"
+			if len(xs) > 0 {
+				l = joinC(xs)
+			}
+			run.Op("codec bucket "+l, hx(d)+" -> "+joinC(ys), true)
+			if joinC(xs) != joinC(ys) {
+				run.Fail("voting-power bucket does not round-trip", map[string]interface{}{"entries": xs})
+			}
+		case 6:
+			o, dst := append([]byte{2}, rng.Bytes(32)...), append([]byte{3}, rng.Bytes(32)...)
+			if rng.Chance(1, 4) {
+				dst = nmAddr
+			}
+			if rng.Chance(1, 8) {
+				o, dst = nil, nil
+			}
+			d := name.VerifC15SerializeNameMap(o, dst)
+			ro, rd, _ := name.VerifC15DeserializeNameMap(d)
+			run.Op(fmt.Sprintf("codec namemap %s %s", hx(o), hx(dst)), fmt.Sprintf("%s -> %s %s", hx(d), hx(ro), hx(rd)), true)
+			if !bytes.Equal(ro, o) || !bytes.Equal(rd, dst) {
+				run.Fail("name record does not round-trip", map[string]interface{}{"owner": hx(o), "dest": hx(dst)})
+			}
+		}
+		run.Count("codec")
+	}
+}
+
+func b01(b bool) int {
+	if b {
+		return 1
+	}
+	return 0
 }
 
 func main() {
-	dir := os.Args[1]
-	w := newWorld(dir)
-	c1 := base58.Encode(cand(2, 0x11))
-	c2 := base58.Encode(cand(3, 0x22))
-	fmt.Println("--- A: members tree stale key")
-	fmt.Println(w.sys(0, 1, coins(30000), `{"Name":"v1stake"}`))
-	fmt.Println(w.sys(1, 1, coins(20000), `{"Name":"v1stake"}`))
-	fmt.Println(w.sys(2, 1, coins(10000), `{"Name":"v1stake"}`))
-	fmt.Println(w.sys(0, 2, big.NewInt(0), `{"Name":"v1voteBP","Args":["`+c1+`"]}`))
-	fmt.Println(w.sys(1, 2, big.NewInt(0), `{"Name":"v1voteBP","Args":["`+c1+`","`+c2+`"]}`))
-	fmt.Println(w.sys(2, 2, big.NewInt(0), `{"Name":"v1voteBP","Args":["`+c2+`"]}`))
-	w.commit()
-	w.dump("A1")
-	no := uint64(system.StakingDelay + 10)
-	fmt.Println(w.sys(2, no, coins(50000), `{"Name":"v1stake"}`))
-	fmt.Println(w.sys(2, no+system.VotingDelay, big.NewInt(0), `{"Name":"v1voteBP","Args":["`+c2+`"]}`))
-	w.commit()
-	w.dump("A2")
-	fmt.Println(w.sys(1, no+system.VotingDelay, coins(20000), `{"Name":"v1unstake"}`))
-	w.commit()
-	w.dump("A3")
-
-	fmt.Println("--- B: 38-byte candidate")
-	ed := append([]byte{0, 0x24, 8, 1, 0x12, 0x20}, make([]byte, 32)...)
-	for i := 6; i < 38; i++ {
-		ed[i] = 0x77
+	run := vh.Start("c15", "sessions on the real block executor step (chain.executeTx -> Execute{System,Name}Tx / contract.Execute) over a memorydb StateDB: "+
+		"scripted delay-boundary, parameter, name and known-finding scenarios, random multi-account sessions with partial unstakes, overlapping re-votes and ties; "+
+		"VoteList.Less / sort and the six record codecs on generated values; nontrivial = the operation was executed (result ok) or is a pure comparison/codec case")
+	defer run.Finish()
+	fee.EnableZeroFee()
+	fd := &findings{run: run, seen: map[string]bool{}}
+	scripted(run, fd)
+	pureOps(run)
+	nsess := run.Pick(60, 700)
+	for i := 0; i < nsess; i++ {
+		fv := int32(2)
+		if i%9 == 8 {
+			fv = int32(run.Rng.Intn(2))
+		}
+		if i%11 == 10 {
+			fv = 3
+		}
+		s := newSess(run, fd, run.Rng.Fork(), fv, fmt.Sprintf("random:%d", i))
+		s.randomSession(20+run.Rng.Intn(run.Pick(40, 80)), i%3 == 0)
+		s.close()
+		run.Count("sessions")
 	}
-	_, err := types.IDFromBytes(ed)
-	fmt.Println("IDFromBytes(ed25519 38 bytes):", err)
-	txb := &types.TxBody{Payload: []byte(`{"Name":"v1voteBP","Args":["` + base58.Encode(ed) + `"]}`)}
-	fmt.Println("types.ValidateSystemTx:", types.ValidateSystemTx(txb))
-	fmt.Println(w.sys(3, no, coins(10000), `{"Name":"v1stake"}`))
-	fmt.Println("vote38:", w.sys(3, no+1, big.NewInt(0), `{"Name":"v1voteBP","Args":["`+base58.Encode(ed)+`"]}`))
-	w.commit()
-	w.dump("B1")
-	scs, _ := statedb.GetSystemAccountState(w.bs.StateDB)
-	out, p := vh.Guard(func() string {
-		v, err := system.GetVote(scs, w.addrs[3], []byte("voteBP"))
-		return fmt.Sprint(hex.EncodeToString(v.Candidate), " ", new(big.Int).SetBytes(v.Amount), " ", err)
-	})
-	fmt.Println("stored vote of 3:", out, p)
-	st, _ := system.GetStaking(scs, w.addrs[3])
-	fmt.Println("stake of 3:", st.GetAmountBigInt())
-	fmt.Println("revote38:", w.sys(3, no+1+system.VotingDelay, big.NewInt(0), `{"Name":"v1voteBP","Args":["`+c1+`"]}`))
-	w.commit()
-	w.dump("B2")
-	fmt.Println("--- C: plain transfer to aergo.system")
-	w.transferToSystem()
 }
